@@ -23,4 +23,5 @@ run_one() { # kind name checks...
 FILTER=${1:-.}
 while read name checks; do echo "$name" | grep -q "$FILTER" && run_one mutants $name $checks; done < selftest/mutants/INDEX.txt
 while read name checks; do echo "$name" | grep -q "$FILTER" && run_one equivalent $name $checks; done < selftest/equivalent/INDEX.txt
+if echo EQ_sam_refactor_early_exit | grep -q "$FILTER"; then mkdir -p selftest/equivalent; cp selftest/equivalent_handwritten/EQ_sam_refactor_early_exit.diff selftest/equivalent/; run_one equivalent EQ_sam_refactor_early_exit C04; fi
 exit $FAIL
